@@ -45,6 +45,7 @@ import (
 	"github.com/google/go-containerregistry/pkg/v1/mutate"
 	"github.com/google/go-containerregistry/pkg/v1/partial"
 	"github.com/google/go-containerregistry/pkg/v1/random"
+	"github.com/google/go-containerregistry/pkg/v1/tarball"
 	ggcrtypes "github.com/google/go-containerregistry/pkg/v1/types"
 	"github.com/spf13/afero"
 	admv1 "k8s.io/api/admissionregistration/v1"
@@ -362,8 +363,36 @@ func docBounds(stream []byte) []int {
 	return bounds
 }
 
+type tarFile struct {
+	name string
+	data []byte
+}
+
+// tarLayer builds an image layer holding the files in the given order.
+func tarLayer(files []tarFile) v1.Layer {
+	var buf bytes.Buffer
+	tw := tar.NewWriter(&buf)
+	for _, f := range files {
+		if err := tw.WriteHeader(&tar.Header{Name: f.name, Mode: int64(xpkg.StreamFileMode), Size: int64(len(f.data))}); err != nil {
+			panic(err)
+		}
+		if _, err := tw.Write(f.data); err != nil {
+			panic(err)
+		}
+	}
+	if err := tw.Close(); err != nil {
+		panic(err)
+	}
+	b := buf.Bytes()
+	l, err := tarball.LayerFromOpener(func() (io.ReadCloser, error) { return io.NopCloser(bytes.NewReader(b)), nil })
+	if err != nil {
+		panic(err)
+	}
+	return l
+}
+
 func getImage(toks []string, cons, layout string, wantBuilt bool) *image {
-	built := wantBuilt && lintCleanForBuilder(toks, cons) && layout != "twobase"
+	built := wantBuilt && lintCleanForBuilder(toks, cons) && layout != "twobase" && !strings.HasPrefix(layout, "decoy")
 	key := fmt.Sprintf("%s|%s|%s|%v", strings.Join(toks, ","), cons, layout, built)
 	if im, ok := images[key]; ok {
 		return im
@@ -381,7 +410,7 @@ func getImage(toks []string, cons, layout string, wantBuilt bool) *image {
 	}
 	ctx := context.Background()
 	multi := layout == "multi" || layout == "multiplain"
-	annotate := layout == "annotated" || layout == "multi" || layout == "twobase"
+	annotate := layout == "annotated" || layout == "multi" || layout == "twobase" || layout == "decoy"
 	var base v1.Image = empty.Image
 	if multi {
 		// a runtime base image of two layers, as embedded by `xpkg build --embed-runtime-image`
@@ -436,9 +465,43 @@ func getImage(toks []string, cons, layout string, wantBuilt bool) *image {
 		if err != nil {
 			panic(err)
 		}
+		// layouts "decoy" / "decoyplain": the image also holds another file whose base name is package.yaml
+		// (examples/package.yaml, a well-formed package stream of its own) - in front of the package stream in the
+		// annotated layer, or in an upper layer of a plain image (the flattened filesystem lists upper layers first).
+		// The package stream of the image is the file named package.yaml, nothing else.
+		var upper v1.Layer
+		if strings.HasPrefix(layout, "decoy") {
+			mt := "mP"
+			for _, t := range toks {
+				if strings.HasPrefix(t, "m") {
+					mt = t
+					break
+				}
+			}
+			var dec bytes.Buffer
+			for i, t := range []string{mt, "CRD", "MWC"} {
+				dec.WriteString("---\n")
+				dec.Write(mkDoc(t, 90+i, cons).YAML)
+			}
+			if layout == "decoy" {
+				layer = tarLayer([]tarFile{{"examples/" + xpkg.StreamFile, dec.Bytes()}, {xpkg.StreamFile, raw}})
+				d, err := layer.Digest()
+				if err != nil {
+					panic(err)
+				}
+				cfg.Labels[xpkg.Label(d.String())] = xpkg.PackageAnnotation
+			} else {
+				upper = tarLayer([]tarFile{{"examples/" + xpkg.StreamFile, dec.Bytes()}})
+			}
+		}
 		img, err = mutate.AppendLayers(base, layer)
 		if err != nil {
 			panic(err)
+		}
+		if upper != nil {
+			if img, err = mutate.AppendLayers(img, upper); err != nil {
+				panic(err)
+			}
 		}
 		if layout == "twobase" {
 			// a second layer annotated as base: the xpkg specification forbids it
@@ -1680,7 +1743,7 @@ func main() {
 	}
 	sum := &summary{BuildErrs: map[string]int{}}
 	rng := rand.New(rand.NewSource(*seed))
-	layouts := []string{"annotated", "plain", "multi", "multiplain"}
+	layouts := []string{"annotated", "plain", "multi", "multiplain", "decoy", "decoyplain"}
 	swept := map[string]bool{}
 	for i, raw := range raws {
 		var sc scenario
@@ -1717,7 +1780,7 @@ func main() {
 		} else {
 			// rotate on the scenario's own number so that the choice does not depend on sharding
 			n := idNumber(sc.ID)
-			vs = []variant{{layouts[n%4], []string{"built", "raw"}[(n/4)%2], []string{"line", "byte"}[(n/8)%2]}}
+			vs = []variant{{layouts[n%len(layouts)], []string{"built", "raw"}[(n/len(layouts))%2], []string{"line", "byte"}[(n/(2*len(layouts)))%2]}}
 		}
 		if sc.VLayout != "" {
 			b := sc.VBuild
